@@ -283,6 +283,56 @@ def variants(base, enums, small=False):
     s = copy.deepcopy(base)
     s["modules"] = list(reversed(s["modules"]))
     out.append(("uncompared:module-order", s))
+    # children moved / exchanged between the two modules (who owns what)
+    if len(base["modules"]) >= 2:
+        for field in ("proxies", "symbols", "sections"):
+            for src, dst in ((0, 1), (1, 0)):
+                cands = [c for c in base["modules"][src][field]
+                         if c["uuid"] not in referenced
+                         and not c.get("intervals")]
+                if not cands:
+                    continue
+                s = copy.deepcopy(base)
+                c = [x for x in s["modules"][src][field]
+                     if x["uuid"] == cands[0]["uuid"]][0]
+                s["modules"][src][field].remove(c)
+                s["modules"][dst][field].append(c)
+                out.append(("moved:%s m%d->m%d" % (field, src, dst), s))
+        # exchange: one symbol of each module swaps owner (counts unchanged)
+        a = [y for y in base["modules"][0]["symbols"]
+             if y["uuid"] not in referenced]
+        b = [y for y in base["modules"][1]["symbols"]]
+        if a and b:
+            s = copy.deepcopy(base)
+            ya = [y for y in s["modules"][0]["symbols"]
+                  if y["uuid"] == a[0]["uuid"]][0]
+            s["modules"][0]["symbols"].remove(ya)
+            s["modules"][1]["symbols"].append(ya)
+            out.append(("moved:symbol m0->m1 (again)", s))
+        s = copy.deepcopy(base)
+        s["modules"][0]["proxies"].append({"uuid": U(6101)})
+        s["modules"][1]["proxies"].append({"uuid": U(6102)})
+        t = copy.deepcopy(base)
+        t["modules"][0]["proxies"].append({"uuid": U(6102)})
+        t["modules"][1]["proxies"].append({"uuid": U(6101)})
+        out.append(("exchange:proxies-A", s))
+        out.append(("exchange:proxies-B", t))
+        s = copy.deepcopy(base)
+        s["modules"][0]["sections"].append(irgen.mk_section(6103, "x"))
+        s["modules"][1]["sections"].append(irgen.mk_section(6104, "x"))
+        t = copy.deepcopy(base)
+        t["modules"][0]["sections"].append(irgen.mk_section(6104, "x"))
+        t["modules"][1]["sections"].append(irgen.mk_section(6103, "x"))
+        out.append(("exchange:sections-A", s))
+        out.append(("exchange:sections-B", t))
+        s = copy.deepcopy(base)
+        s["modules"][0]["symbols"].append(irgen.mk_symbol(6105, "x"))
+        s["modules"][1]["symbols"].append(irgen.mk_symbol(6106, "x"))
+        t = copy.deepcopy(base)
+        t["modules"][0]["symbols"].append(irgen.mk_symbol(6106, "x"))
+        t["modules"][1]["symbols"].append(irgen.mk_symbol(6105, "x"))
+        out.append(("exchange:symbols-A", s))
+        out.append(("exchange:symbols-B", t))
     if small:
         keep = [v for v in out if not v[0].startswith(("module[", "section[",
                                                        "symbol[", "interval["))]
@@ -303,7 +353,7 @@ def build_all(vs):
             order = "reversed"
         try:
             ir, nodes = irgen.build_ir(spec, order)
-            if i % 7 == 3:
+            if i % 7 == 3 and spec.get("version") is None:
                 # every so often compare through a save/load copy
                 _, ir = c01.roundtrip(ir)
                 nodes = None
